@@ -1,5 +1,5 @@
 (** * C02 -- controlled operators act only where all control qubits are 1 *)
-From QV Require Import Spec Expr ScalarR C02T.
+From QV Require Import Spec Expr ScalarR C02T C05T SupportP C02T2.
 
 Theorem C02_semantics : C02_semantics_stmt.
 Proof. exact C02_semantics_proof. Qed.
@@ -16,3 +16,7 @@ Print Assumptions C02_act_on.
 Theorem C02_expr : C02_expr_stmt.
 Proof. exact C02_expr_proof. Qed.
 Print Assumptions C02_expr.
+
+Theorem C02_support : C02_support_stmt.
+Proof. exact C02_support_proof. Qed.
+Print Assumptions C02_support.
